@@ -9,45 +9,161 @@ that no other unit or group checks.  Each harness asserts exactly the stub's pos
              Repr::new (normalisation), Repr::digits (contracts/lib/round_float_repr.rs, conv_fbig_stubs.rs,
              farith_add_stubs.rs).
 
-A stub check serves every property whose proof assumes the stub, hence the wide PROP_UNITS below; the quick tier is a
-handful of cheap harnesses per property (selected with 'props'), everything else is 'tier': 'thorough'.
+A stub check serves every property whose proof assumes the stub: 'props' lists them.  The quick tier is a handful of cheap
+harnesses per property (quick harnesses carry the few properties they are quickest to serve); everything else is
+'tier': 'thorough' with the full list of dependent properties.  Times (this machine, one harness at a time) are in
+contracts/STUB_AUDIT.md.
 """
 
+# properties whose Verus units include the stub libraries
+_STORAGE = ['C01', 'C02', 'C09', 'C12', 'C13', 'C17']          # repr_stubs.rs (Buffer / Repr / TypedRepr)
+_BIG = ['C03', 'C04', 'C05', 'C06', 'C08', 'C10', 'C14', 'C18']  # bigstub.rs / round_int_stubs.rs (UBig / IBig as values)
+_RATIO = ['C04', 'C05', 'C06', 'C18']
+_FLOAT = ['C03', 'C06', 'C08', 'C10', 'C14', 'C18']             # round_float_repr.rs, conv_fbig_stubs.rs, farith_*.rs
 
-def _h(bound, props, tier='quick'):
-    d = {'kind': 'bounded', 'bound': bound, 'props': props}
-    if tier != 'quick':
-        d['tier'] = tier
-    return d
+_I12 = 'operands of the stated word counts (suffix _A_B / _cN / _iN: 1 or 2 inline words, _h3 / 3 / 4: heap), full ' \
+       'symbolic 64-bit words, every sign combination; results < 2^128'
+_IPAL = 'operands of the stated word counts, palette words {0, 1, 2^63, 2^64-1, 2^64-2, 2^63+1, 2^32, 3} (3 symbolic ' \
+        'bits per word), every sign combination'
+_ICONC = 'concrete (pinned) magnitudes listed in the harness, every sign combination / form'
+
+_F1 = 'symbolic sign, symbolic one-word magnitude (|s| < 2^64: every i64 and beyond), concrete digit positions / ' \
+      'shift amounts listed in the harness (suffix _pN / _eN)'
+_F2 = 'symbolic sign, symbolic two-word magnitude (2^64 <= |s| < 2^128), concrete digit positions / shift amounts ' \
+      'listed in the harness (suffix _pN / _eN)'
+_FC = 'concrete magnitudes listed in the harness (one and two words), both signs' \
+      '; symbolic exponent |e| < 2^40 for Repr::new'
+
+# name: (tier, props, bound)
+_INT = {
+    'vk_stub_int_buffer_from_slice_cap': ('quick', _STORAGE, 'slice lengths 0, 1, 2, 3, 8; symbolic contents'),
+    'vk_stub_int_repr_is_one_i1': ('quick', ['C01', 'C02', 'C04', 'C09'], _I12),
+    'vk_stub_int_repr_is_one_i2': ('quick', ['C01', 'C02', 'C04', 'C09'], _I12),
+    'vk_stub_int_repr_is_one_h3': ('quick', ['C01', 'C02', 'C04', 'C09'], _I12),
+    'vk_stub_int_ibig_parts_c1': ('quick', ['C03', 'C04', 'C10', 'C18'], _I12),
+    'vk_stub_int_ibig_parts_c2': ('quick', ['C03', 'C04', 'C10', 'C18'], _I12),
+    'vk_stub_int_ibig_parts_h3': ('quick', ['C04', 'C10'], _I12),
+    'vk_stub_int_ibig_from_parts_c1': ('quick', ['C03', 'C04', 'C18'], _I12),
+    'vk_stub_int_ibig_from_parts_c2': ('quick', ['C04', 'C08'], _I12),
+    'vk_stub_int_abs_cmp_1_1': ('quick', ['C03', 'C05', 'C14'], _I12),
+    'vk_stub_int_abs_cmp_2_2': ('quick', ['C05', 'C14'], _I12),
+    'vk_stub_int_abs_cmp_2_1': ('quick', ['C05'], _I12),
+    'vk_stub_int_abs_cmp_2_3': ('quick', ['C05'], _I12),
+    'vk_stub_int_abs_cmp_3_3': ('thorough', _BIG, _I12),
+    'vk_stub_int_ubig_addsub_1_1': ('quick', ['C04', 'C08', 'C18'], _I12),
+    'vk_stub_int_ubig_addsub_2_2': ('quick', ['C04', 'C18'], _I12 + '; magnitudes < 2^127'),
+    'vk_stub_int_ibig_add_1_1': ('quick', ['C03', 'C04'], _I12),
+    'vk_stub_int_ibig_sub_1_1': ('quick', ['C03', 'C04'], _I12),
+    'vk_stub_int_ibig_add_2_2': ('thorough', _BIG, _I12 + '; magnitudes < 2^127'),
+    'vk_stub_int_ibig_sub_2_2': ('thorough', _BIG, _I12 + '; magnitudes < 2^127'),
+    'vk_stub_int_ibig_addsub_forms': ('quick', ['C03', 'C10'], _I12 + '; &IBig + IBig, +=, IBig - &IBig, -='),
+    'vk_stub_int_mixed_addsub_1_1': ('quick', ['C04', 'C18'], _I12 + '; IBig + UBig, IBig - UBig, UBig - IBig'),
+    'vk_stub_int_ibig_mul_1_1': ('thorough', _BIG, _IPAL),
+    'vk_stub_int_ubig_mul_1_1': ('quick', ['C04'], _IPAL + '; UBig * UBig, sqr, UBig * IBig, IBig * UBig'),
+    'vk_stub_int_ubig_divrem_2_1': ('quick', ['C02', 'C04'], _IPAL + '; / % div_rem'),
+    'vk_stub_int_ubig_divrem_1_2': ('quick', ['C02'], _IPAL + '; / % div_rem'),
+    'vk_stub_int_ubig_divrem_2_2': ('thorough', ['C02'] + _BIG, _IPAL + '; / % div_rem'),
+    'vk_stub_int_ibig_div_2_1': ('quick', ['C02', 'C10'], _IPAL),
+    'vk_stub_int_ibig_rem_2_1': ('thorough', ['C02'] + _BIG, _IPAL),
+    'vk_stub_int_ibig_divrem_2_2': ('thorough', ['C02'] + _BIG, _IPAL),
+    'vk_stub_int_ibig_ubig_divrem_1_1': ('quick', ['C04', 'C10'], _IPAL + '; IBig / UBig, IBig % &UBig, &IBig / &UBig, &IBig % &UBig'),
+    'vk_stub_int_div_dispatch_1_3': ('quick', ['C02'], _I12 + '; shorter dividend: quotient 0, remainder = dividend'),
+    'vk_stub_int_div_dispatch_2_3': ('quick', ['C02'], _I12 + '; shorter dividend: quotient 0, remainder = dividend'),
+    'vk_stub_int_div_dispatch_3_4': ('quick', ['C02'], _I12 + '; shorter dividend: quotient 0, remainder = dividend'),
+    'vk_stub_int_div_long_3_1': ('thorough', ['C02'], '3-word dividend, 1-word divisor, palette words; a == q*b + r, r < b by multi-word arithmetic'),
+    'vk_stub_int_div_long_3_2_pinned': ('thorough', ['C02'], 'one pinned 3-word dividend / 2-word divisor'),
+    'vk_stub_int_div_long_3_3_pinned': ('thorough', ['C02'], 'one pinned 3-word dividend / 3-word divisor'),
+    'vk_stub_int_shifts_n1': ('quick', ['C04', 'C06'], _I12 + '; shift by 1: UBig/IBig <<, UBig >>, IBig >> (non-negative)'),
+    'vk_stub_int_shifts_n37': ('thorough', _BIG, _I12 + '; shift by 37'),
+    'vk_stub_int_shifts_n64': ('thorough', _BIG, _I12 + '; shift by 64'),
+    'vk_stub_int_pow_a': ('quick', ['C03', 'C04'], _ICONC + ': (0,0) (0,3) (1,5) (7,0) (7,1)'),
+    'vk_stub_int_pow_b': ('quick', ['C08'], _ICONC + ': (3,5) (10,19) (12,7) (6,20)'),
+    'vk_stub_int_pow_c': ('thorough', _BIG, _ICONC + ': (2^32-1,3) (2,127) (48,11)'),
+    'vk_stub_int_gcd_a': ('quick', ['C04'], _ICONC + ': (12,18) (0,7) (7,0); symbolic candidate divisor d < 2^16'),
+    'vk_stub_int_gcd_b': ('thorough', ['C04', 'C12', 'C18'], _ICONC + ': (1,1) (48,180) (17,31)'),
+    'vk_stub_int_gcd_c': ('thorough', ['C04', 'C12', 'C18'], _ICONC + ': (2^40, 3*2^20) (600851475143, 71*839)'),
+    'vk_stub_int_ubig_bits_1': ('quick', ['C04', 'C06', 'C14'], _I12 + '; bit_len, trailing_zeros'),
+    'vk_stub_int_ubig_bits_2': ('quick', ['C06', 'C14'], _I12 + '; bit_len, trailing_zeros'),
+    'vk_stub_int_ubig_bits_3': ('quick', ['C04', 'C06'], _I12 + '; bit_len, trailing_zeros (heap, 3 words)'),
+}
+
+_FLT = {
+    'vk_stub_float_split_digits_b2_p1': ('thorough', _FLOAT, _F1 + '; base 2, owning form'),
+    'vk_stub_float_split_digits_b2_p63': ('thorough', _FLOAT, _F1 + '; base 2, owning form'),
+    'vk_stub_float_split_digits_b2_p70': ('thorough', _FLOAT, _F1 + '; base 2, owning form'),
+    'vk_stub_float_split_digits_b2_dword_p1': ('quick', ['C03', 'C10'], _F2 + '; base 2, owning form, positions 1 and 65'),
+    'vk_stub_float_split_digits_b2_dword_p127': ('thorough', _FLOAT, _F2 + '; base 2, owning form'),
+    'vk_stub_float_split_digits_b2_dword_p64': ('thorough', _FLOAT, _F2 + '; base 2, owning and borrowing form'),
+    'vk_stub_float_split_digits_b2_dword_p128': ('quick', ['C10'], _F2 + '; base 2, owning and borrowing form, positions 128 and 130'),
+    'vk_stub_float_split_digits_b2_conc': ('quick', ['C10'], _FC + '; base 2, both forms'),
+    'vk_stub_float_split_digits_b16_p1': ('thorough', _FLOAT, _F1 + '; base 16'),
+    'vk_stub_float_split_digits_b16_p16': ('thorough', _FLOAT, _F1 + '; base 16'),
+    'vk_stub_float_split_digits_b16_conc': ('thorough', _FLOAT, _FC + '; base 16, both forms'),
+    'vk_stub_float_split_digits_b10_a': ('quick', ['C03'], _FC + '; base 10, both forms'),
+    'vk_stub_float_split_digits_b10_b': ('thorough', _FLOAT, _FC + '; base 10, both forms'),
+    'vk_stub_float_split_digits_b10_c': ('thorough', _FLOAT, _FC + '; base 10, both forms'),
+    'vk_stub_float_digit_len_b2': ('thorough', _FLOAT, 'symbolic sign, symbolic one-word magnitude; base 2'),
+    'vk_stub_float_digit_len_b16_dword': ('thorough', _FLOAT, 'symbolic sign, symbolic two-word magnitude; base 16'),
+    'vk_stub_float_repr_digits_b2': ('quick', ['C03', 'C14'], 'symbolic sign, one-word magnitude, any exponent; Repr::<2>::digits'),
+    'vk_stub_float_shl_digits_b2_e1': ('quick', ['C03', 'C08'], _F1 + '; base 2; shl_digits and shl_digits_in_place'),
+    'vk_stub_float_shl_digits_b2_e64': ('thorough', _FLOAT, _F1 + '; base 2'),
+    'vk_stub_float_shl_digits_b16': ('thorough', _FLOAT, _F1 + '; base 16, exponents 1 and 16'),
+    'vk_stub_float_shl_digits_b10': ('thorough', _FLOAT, _FC + '; base 10'),
+    'vk_stub_float_shr_digits_b2_e0': ('thorough', _FLOAT, _F2 + '; base 2'),
+    'vk_stub_float_shr_digits_b2_e64': ('thorough', _FLOAT, _F2 + '; base 2'),
+    'vk_stub_float_shr_digits_b2_e128': ('quick', ['C08', 'C10'], _F2 + '; base 2, exponents 128 and 130'),
+    'vk_stub_float_shr_digits_b2_conc': ('quick', ['C08', 'C10'], _FC + '; base 2'),
+    'vk_stub_float_shr_digits_b16_e16': ('thorough', _FLOAT, _F2 + '; base 16'),
+    'vk_stub_float_shr_digits_b16_conc': ('thorough', _FLOAT, _FC + '; base 16'),
+    'vk_stub_float_shr_digits_b10': ('thorough', _FLOAT, _FC + '; base 10'),
+    'vk_stub_float_repr_new_b2_pos': ('quick', ['C03', 'C08', 'C10'], 'POSITIVE symbolic one-word significand, symbolic exponent |e| < 2^40; base 2'),
+    'vk_stub_float_repr_new_b16_pos': ('thorough', _FLOAT, 'POSITIVE symbolic one-word significand, symbolic exponent |e| < 2^40; base 16'),
+    'vk_stub_float_repr_new_b2': ('quick', ['C03'], _FC + '; base 2'),
+    'vk_stub_float_repr_new_b16': ('thorough', _FLOAT, _FC + '; base 16'),
+    'vk_stub_float_repr_new_b10_a': ('quick', ['C08'], _FC + '; base 10 (UBig::remove)'),
+    'vk_stub_float_repr_new_b10_b': ('thorough', _FLOAT, _FC + '; base 10 (UBig::remove)'),
+    'vk_stub_float_repr_new_b10_c': ('thorough', _FLOAT, _FC + '; base 10 (UBig::remove)'),
+    'vk_stub_float_repr_new_zero': ('quick', ['C03', 'C10'], 'zero significand, any exponent, bases 2, 10, 16'),
+}
 
 
-_F1 = 'symbolic sign, symbolic one-word magnitude (|s| < 2^64, covers every i64)'
-_F2 = 'symbolic sign, symbolic two-word magnitude (2^64 <= |s| < 2^128)'
-_F10 = 'symbolic sign, magnitude < 2^24, base 10, concrete digit count (suffix _pN / _eN)'
+def _mk(tbl):
+    out = {}
+    for n, (tier, props, bound) in tbl.items():
+        d = {'kind': 'bounded', 'bound': bound, 'props': list(props)}
+        if tier != 'quick':
+            d['tier'] = tier
+        out[n] = d
+    return out
 
-_FLOAT_ALL = ['C03', 'C08', 'C10', 'C14', 'C18']
 
 def _scan(fname, prefix):
-    """Harness names defined in a harness file (every identifier with the group's unique prefix), in file order."""
+    """Harness names defined in a harness file (consistency check: every harness of the file is registered)."""
     import os
     import re
     path = os.path.join(os.path.dirname(os.path.dirname(os.path.dirname(os.path.abspath(__file__)))), 'kani', 'harness',
                         fname)
-    out = []
-    for n in re.findall(r'\b(%s\w+)\b' % prefix, open(path).read()):
-        if n not in out:
-            out.append(n)
-    return out
+    return set(re.findall(r'\b(%s\w+)\b' % prefix, open(path).read()))
 
 
-STUB_FLOAT = {n: _h('TBD', _FLOAT_ALL, 'thorough') for n in _scan('stub_float.rs', 'vk_stub_float_')}
+assert _scan('stub_int.rs', 'vk_stub_int_') == set(_INT), _scan('stub_int.rs', 'vk_stub_int_') ^ set(_INT)
+assert _scan('stub_float.rs', 'vk_stub_float_') == set(_FLT), _scan('stub_float.rs', 'vk_stub_float_') ^ set(_FLT)
 
 KANI = {
+    'stub_int': {
+        'package': 'dashu-int', 'target': 'integer/src/lib.rs', 'file': 'stub_int.rs',
+        'harnesses': _mk(_INT),
+    },
     'stub_float': {
         'package': 'dashu-float', 'target': 'float/src/utils.rs', 'file': 'stub_float.rs',
-        'harnesses': STUB_FLOAT,
+        'harnesses': _mk(_FLT),
     },
 }
 
-PROP_UNITS = {
-}
+PROP_UNITS = {}
+for _g, _t in (('stub_int', _INT), ('stub_float', _FLT)):
+    for _n, (_tier, _props, _b) in _t.items():
+        for _p in _props:
+            _k = PROP_UNITS.setdefault(_p, {}).setdefault('kani', [])
+            if _g not in _k:
+                _k.append(_g)
